@@ -1,6 +1,185 @@
-(* Props/C11.v -- placeholder while the pipeline is brought up *)
-From Coq Require Import List.
-From V Require Import Base.UString Model.Store.
-Theorem placeholder_c11 : forall (a : vkey), vkey_eqb VNone VNone = true.
-Proof. intros; reflexivity. Qed.
-Print Assumptions placeholder_c11.
+(* Props/C11.v -- property C11: the memory store and the filesystem store
+   behave like a plain list of the added objects, over every history.
+
+   Only statements here; proofs are in Proofs/Store*.v.  The model is
+   Model/Store.v (tied to stix2/datastore by the correspondence run of every
+   check); `refines`, `uniform`, `v_ge`, `versions`, `vkey_of` are in
+   Spec/StoreSpec.v; `clean`, `fs_ok` are the domain of the theorems:
+     clean o  : `modified` and `created` are instants or absent,
+     fs_ok o  : clean, the id starts with the type, a versioned id has the
+                <type>--<UUID> shape the directory scan recognises.
+   A history L is a list of added objects; NL = map (norm_obj mode iot) L is
+   what the stores keep of them (identity unless mode = Chrono, the repaired
+   reading in which timestamp text of dictionary-kept content counts as the
+   instant it denotes).  mode / iot / ts2fn are arbitrary.                     *)
+From Coq Require Import NArith ZArith List Bool Permutation.
+From V Require Import Base.UString Model.Store Model.StoreRun Model.StoreCases Spec.StoreSpec
+  Proofs.StoreBase Proofs.StoreMem Proofs.StoreFs Proofs.StoreAgree Proofs.StoreForms Proofs.StoreRefute.
+Import ListNotations.
+Open Scope list_scope.
+
+(* memory store: no addition raises; get / all_versions / the queried population refine the list; query = filter *)
+Theorem mem_refines : forall mode iot (L : list obj),
+  let NL := map (norm_obj mode iot) L in
+  Forall clean NL -> uniform NL ->
+  Forall (fun e => e = None) (mem_outcomes mode iot L []) /\
+  refines NL (fun id => mem_get [] id (mem_run mode iot L)) (fun id => mem_all [] id (mem_run mode iot L))
+             (mem_objs (mem_run mode iot L)) /\
+  (forall fl, mem_query fl (mem_run mode iot L) = filter (all_hold fl) (mem_objs (mem_run mode iot L))).
+Proof. exact mem_refines_thm. Qed.
+Print Assumptions mem_refines.
+
+(* filesystem store: an addition is stored or refused as a re-addition; lookups never raise; the same refinement;
+   query (with its type/id search optimisation) = filter of the stored objects *)
+Theorem fs_refines : forall mode iot ts2fn, (forall a b : Z, ts2fn a = ts2fn b -> a = b) -> forall (L : list obj),
+  let NL := map (norm_obj mode iot) L in
+  Forall fs_ok NL -> uniform NL ->
+  Forall (fun e => e = None \/ e = Some EOverwrite) (fs_outcomes mode iot ts2fn L []) /\
+  (forall id, exists x, fs_get [] id (fs_run mode iot ts2fn L) = Ok x) /\
+  refines NL (fun id => fs_get_val id (fs_run mode iot ts2fn L)) (fun id => fs_all [] id (fs_run mode iot ts2fn L))
+             (map fobj (fs_run mode iot ts2fn L)) /\
+  (forall fl, Permutation (fs_query fl (fs_run mode iot ts2fn L))
+                          (filter (all_hold fl) (map fobj (fs_run mode iot ts2fn L)))).
+Proof. exact fs_refines_thm. Qed.
+Print Assumptions fs_refines.
+
+(* refinement pins the answers down when no (id, modified) is added twice *)
+Theorem refinement_is_unique : forall L g a st g' a' st',
+  NoDup (map vkey_of L) -> refines L g a st -> refines L g' a' st' ->
+  (forall id, g id = g' id) /\ (forall id, Permutation (a id) (a' id)) /\ Permutation st st'.
+Proof. exact refines_unique. Qed.
+Print Assumptions refinement_is_unique.
+
+(* the two stores agree on every history without re-additions: neither raises, same get, same versions, same query *)
+Theorem stores_agree : forall mode iot ts2fn, (forall a b : Z, ts2fn a = ts2fn b -> a = b) -> forall (L : list obj),
+  let NL := map (norm_obj mode iot) L in
+  Forall fs_ok NL -> uniform NL -> NoDup (map vkey_of NL) ->
+  Forall (fun e => e = None) (mem_outcomes mode iot L []) /\
+  Forall (fun e => e = None) (fs_outcomes mode iot ts2fn L []) /\
+  (forall id, fs_get [] id (fs_run mode iot ts2fn L) = Ok (mem_get [] id (mem_run mode iot L))) /\
+  (forall id, Permutation (mem_all [] id (mem_run mode iot L)) (fs_all [] id (fs_run mode iot ts2fn L))) /\
+  (forall fl, Permutation (mem_query fl (mem_run mode iot L)) (fs_query fl (fs_run mode iot ts2fn L))).
+Proof. exact stores_agree_thm. Qed.
+Print Assumptions stores_agree.
+
+(* with re-additions both still refine the same list (mem_refines, fs_refines); they may keep different copies
+   of the re-added version, and only the filesystem store raises *)
+Theorem readd_difference : forall mode iot,
+  mem_outcomes mode iot [r_a; r_b] [] = [None; None] /\
+  mem_get [] n_id (mem_run mode iot [r_a; r_b]) = Some r_a /\
+  mem_all [] n_id (mem_run mode iot [r_a; r_b]) = [r_b] /\
+  fs_outcomes mode iot ts2fn_dec [r_a; r_b] [] = [None; Some EOverwrite] /\
+  fs_get [] n_id (fs_run mode iot ts2fn_dec [r_a; r_b]) = Ok (Some r_a) /\
+  fs_all [] n_id (fs_run mode iot ts2fn_dec [r_a; r_b]) = [r_a].
+Proof. exact readd_difference_l. Qed.
+Print Assumptions readd_difference.
+
+(* an addition never removes or alters another version *)
+Theorem no_silent_loss_memory : forall mode iot (L : list obj) (o : obj),
+  let NL := map (norm_obj mode iot) (L ++ [o]) in
+  Forall clean NL -> uniform NL ->
+  snd (mem_add1 mode iot o (mem_run mode iot L)) = None /\
+  forall o1, In o1 (mem_objs (mem_run mode iot L)) -> vkey_of o1 <> vkey_of (norm_obj mode iot o) ->
+             In o1 (mem_objs (mem_run mode iot (L ++ [o]))).
+Proof. exact no_silent_loss_mem. Qed.
+Print Assumptions no_silent_loss_memory.
+
+Theorem no_silent_loss_filesystem : forall mode iot ts2fn, (forall a b : Z, ts2fn a = ts2fn b -> a = b) ->
+  forall (L : list obj) (o : obj),
+  let NL := map (norm_obj mode iot) (L ++ [o]) in
+  Forall fs_ok NL ->
+  (snd (fs_add1 mode iot ts2fn o (fs_run mode iot ts2fn L)) = None /\
+   fs_run mode iot ts2fn (L ++ [o]) = fs_run mode iot ts2fn L ++ [file_of ts2fn (norm_obj mode iot o)] /\
+   forall o', In o' (map (norm_obj mode iot) L) -> vkey_of o' <> vkey_of (norm_obj mode iot o)) \/
+  (snd (fs_add1 mode iot ts2fn o (fs_run mode iot ts2fn L)) = Some EOverwrite /\
+   fs_run mode iot ts2fn (L ++ [o]) = fs_run mode iot ts2fn L /\
+   exists o', In o' (map (norm_obj mode iot) L) /\ vkey_of o' = vkey_of (norm_obj mode iot o)).
+Proof. exact no_silent_loss_fs. Qed.
+Print Assumptions no_silent_loss_filesystem.
+
+(* save_to_file, then load_from_file into a fresh store: same population, same lookups *)
+Theorem save_load : forall mode iot (L : list obj),
+  let NL := map (norm_obj mode iot) L in
+  Forall clean NL -> uniform NL ->
+  exists m2, mem_load_saved mode iot (mem_run mode iot L) [] = (m2, None) /\
+    Permutation (mem_objs m2) (mem_objs (mem_run mode iot L)) /\
+    (forall id, mem_get [] id m2 = None <-> mem_get [] id (mem_run mode iot L) = None) /\
+    (forall id o2 o, mem_get [] id m2 = Some o2 -> mem_get [] id (mem_run mode iot L) = Some o -> omod o2 = omod o).
+Proof. exact save_load_thm. Qed.
+Print Assumptions save_load.
+
+(* input forms: a history of add() calls in any forms (objects, dictionaries, lists, nested lists, bundles) is
+   the history of the objects they hand over before the first refused item *)
+Theorem mem_forms_flatten : forall mode iot (calls : list (list segment)),
+  let L := flat_map call_objs calls in
+  Forall clean (map (norm_obj mode iot) L) -> uniform (map (norm_obj mode iot) L) ->
+  mem_calls mode iot calls = mem_run mode iot L.
+Proof. exact mem_calls_flatten. Qed.
+Print Assumptions mem_forms_flatten.
+
+Theorem mem_call_outcome : forall mode iot (segs : list segment) L0 m,
+  MemInv L0 m -> Forall clean (map (norm_obj mode iot) (call_objs segs)) ->
+  uniform (L0 ++ map (norm_obj mode iot) (call_objs segs)) ->
+  mem_add_segs mode iot segs m =
+    (fold_left (madd mode iot) (call_objs segs) m, if call_complete segs then None else Some EParse).
+Proof. exact mem_call_flatten. Qed.
+Print Assumptions mem_call_outcome.
+
+(* filesystem, no hypothesis at all: after any call the store is the store after adding one by one an initial
+   part of the call's objects, all of them if the call returned normally *)
+Theorem fs_call_stores_prefix : forall mode iot ts2fn (segs : list segment) s s' e,
+  fs_add_segs mode iot ts2fn segs s = (s', e) ->
+  exists l1 l2, call_objs segs = l1 ++ l2 /\ s' = fold_left (fadd mode iot ts2fn) l1 s /\
+                (e = None -> l2 = [] /\ call_complete segs = true).
+Proof. exact fs_call_prefix. Qed.
+Print Assumptions fs_call_stores_prefix.
+
+(* ---- outside the domain: the defective variant and the necessity of the hypotheses ---- *)
+
+(* TextOrder (the code as it is): `modified` of dictionary-kept content is compared as text; both stores return
+   the version of 00:00:00Z although 00:00:00.5Z was added *)
+Theorem latest_text_refuted :
+  mem_get [] w_id (mem_run TextOrder w_iot [w_a; w_b]) = Some w_a /\
+  fs_get [] w_id (fs_run TextOrder w_iot ts2fn_dec [w_a; w_b]) = Ok (Some w_a) /\
+  In w_b [w_a; w_b] /\ oid w_b = w_id /\
+  vinst w_iot (omod w_a) = Some 1577836800000000%Z /\ vinst w_iot (omod w_b) = Some 1577836800500000%Z.
+Proof. exact latest_text_refuted_l. Qed.
+Print Assumptions latest_text_refuted.
+
+(* Chrono (repaired): the same history is in the domain of mem_refines / fs_refines and the later one is returned *)
+Theorem latest_text_chrono :
+  mem_get [] w_id (mem_run Chrono w_iot [w_a; w_b]) = Some (norm_obj Chrono w_iot w_b) /\
+  fs_get [] w_id (fs_run Chrono w_iot ts2fn_dec [w_a; w_b]) = Ok (Some (norm_obj Chrono w_iot w_b)).
+Proof. exact latest_text_chrono_l. Qed.
+Print Assumptions latest_text_chrono.
+
+(* a version whose modified is a timezone-naive datetime: memory raises TypeError after recording it, get ignores
+   it; the filesystem store orders it as UTC *)
+Theorem naive_refuted : forall mode iot,
+  mem_outcomes mode iot [n_a; n_b] [] = [None; Some EType] /\
+  mem_all [] n_id (mem_run mode iot [n_a; n_b]) = [n_a; n_b] /\
+  mem_get [] n_id (mem_run mode iot [n_a; n_b]) = Some n_a /\
+  fs_outcomes mode iot ts2fn_dec [n_a; n_b] [] = [None; None] /\
+  fs_get [] n_id (fs_run mode iot ts2fn_dec [n_a; n_b]) = Ok (Some (aware_obj n_b)).
+Proof. exact naive_refuted_l. Qed.
+Print Assumptions naive_refuted.
+
+(* `uniform` is needed: an id used with and without `modified` *)
+Theorem mixed_kind_refuted : forall mode iot,
+  mem_outcomes mode iot [m_v1; m_v2; m_u] [] = [None; None; None] /\
+  mem_objs (mem_run mode iot [m_v1; m_v2; m_u]) = [m_u] /\
+  fs_outcomes mode iot ts2fn_dec [m_v1; m_v2; m_u] [] = [None; None; None] /\
+  map fobj (fs_run mode iot ts2fn_dec [m_v1; m_v2; m_u]) = [m_v1; m_v2; m_u] /\
+  fs_get [] w_id (fs_run mode iot ts2fn_dec [m_v1; m_v2; m_u]) = Err EKey.
+Proof. exact mixed_kind_refuted_l. Qed.
+Print Assumptions mixed_kind_refuted.
+
+(* ---- the hypotheses are satisfiable ---- *)
+Example domain_inhabited : Forall fs_ok d_objs /\ uniform d_objs /\ NoDup (map vkey_of d_objs).
+Proof. exact d_objs_ok. Qed.
+
+Example chrono_domain_inhabited : Forall fs_ok (map (norm_obj Chrono w_iot) [w_a; w_b]) /\ uniform (map (norm_obj Chrono w_iot) [w_a; w_b]).
+Proof. exact w_objs_ok. Qed.
+
+Example injective_names_exist : exists f : Z -> ustring, forall a b, f a = f b -> a = b.
+Proof. exact inj_names. Qed.
